@@ -132,7 +132,14 @@ func Assert(id string, c bool) {
 // ReachedTags lists the Reached points passed by the native run.
 var ReachedTags []string
 
-func Reached(tag string) { ReachedTags = append(ReachedTags, tag) }
+func Reached(tag string) {
+	ReachedTags = append(ReachedTags, tag)
+	// a witness sample is the model of the path prefix that ends at this tag: once all its values are
+	// consumed and the tag is reached, the sampled prefix has been replayed completely
+	if cur != nil && cur.Kind == "sample" && cur.Assert == "reached:"+tag && pos >= len(cur.Nondet) {
+		panic(SampleEnd{})
+	}
+}
 
 // Thorough reports whether the thorough tier (deeper bounds) was requested.
 func Thorough() bool { return os.Getenv("VERIF_TIER") == "thorough" }
